@@ -112,7 +112,7 @@ func c10RTInterp(t *testing.T, c c10RTCase) (v kit.Verdict) {
 			var want []c10RTFire
 			if !stopped && !drained {
 				for k, p := range model {
-					if p.due <= T {
+					if p.due <= int64(T) {
 						want = append(want, c10RTFire{at: time.Duration(p.due) * iv, key: k, val: p.val})
 						delete(model, k)
 					}
@@ -201,12 +201,12 @@ func c10RTInterp(t *testing.T, c c10RTCase) (v kit.Verdict) {
 						if o.M > c.Slots {
 							classes["multi-revolution"] = true
 						}
-						model[o.Key] = c10Pending{val: o.Val, due: T + o.M}
+						model[o.Key] = c10Pending{val: o.Val, due: int64(T + o.M)}
 					case "move":
 						if pending {
 							classes["move-pending"] = true
 							nontrivial = true
-							model[o.Key] = c10Pending{val: p.val, due: T + o.M}
+							model[o.Key] = c10Pending{val: p.val, due: int64(T + o.M)}
 						}
 					case "remove":
 						if pending {
@@ -223,8 +223,8 @@ func c10RTInterp(t *testing.T, c c10RTCase) (v kit.Verdict) {
 		if !stopped {
 			maxDue := q / 4
 			for _, p := range model {
-				if p.due > maxDue {
-					maxDue = p.due
+				if p.due > int64(maxDue) {
+					maxDue = int(p.due)
 				}
 			}
 			sleepQ(4*(maxDue-q/4+c.Slots+1) + 1)
@@ -448,7 +448,7 @@ func c10UGen(rt *rapid.T) c10UCase {
 		case "set", "move":
 			o.Key = rapid.IntRange(0, nkeys-1).Draw(rt, "key")
 			o.Val = rapid.IntRange(0, 9).Draw(rt, "val")
-			o.M = rapid.IntRange(1, 2*c.Slots+1).Draw(rt, "m")
+			o.M = int64(rapid.IntRange(1, 2*c.Slots+1).Draw(rt, "m"))
 			if rapid.Bool().Draw(rt, "subq") {
 				s = rapid.IntRange(1, 4).Draw(rt, "sub")
 			}
